@@ -1238,6 +1238,8 @@ def rewrite_for_loops(toks, arrays=()):
 GLOBAL_SUBSTS = [
     # R4
     (pat_of("u32::from_le_bytes("), "vf_u32_from_le_bytes("),
+    (pat_of("u32::from_ne_bytes("), "vf_u32_from_ne_bytes("),
+    (pat_of("u32::from_be_bytes("), "vf_u32_from_be_bytes("),
     (pat_of(".to_le_bytes()"), ".vf_to_le_bytes()"),
     (pat_of(".trailing_zeros()"), ".vf_trailing_zeros()"),
     # R9
